@@ -96,9 +96,17 @@ structure MappedTx where
   resultIDs : List Bytes
   deriving Repr, DecidableEq
 
+/-- the typed inputs, `none` if some input has none (`mapInputs` panics) -/
+def typedInputs : List TxInput → Option (List TypedInput)
+  | [] => some []
+  | i :: r =>
+    match i.typed, typedInputs r with
+    | some t, some l => some (t :: l)
+    | _, _ => none
+
 /-- `MapTx`; `none` = the `panic` of `mapInputs` on an untyped input -/
 def mapTx (H : Bytes → Bytes) (tx : TxData) : Option MappedTx :=
-  match tx.inputs.mapM (fun i => i.typed) with
+  match typedInputs tx.inputs with
   | none => none
   | some typed =>
     let ins := typed.map (inputEntry H tx.outputs)
